@@ -683,4 +683,30 @@ theorem exchangeTagsFrom_length (fuel : Nat) : ∀ (sent : Nat) (m : Method) (b 
         · rw [if_pos hs, if_pos hs]; rfl
         · rw [if_neg hs, if_neg hs]; simp [ih]
 
+/-! ### Shared upload: the push that is never told anything -/
+
+/-- **A joined push that is never told anything does not report success and sends no manifest.**
+    When the owner's `Prepare` fails nothing is ever published on the shared `blobUpload`; the joined
+    push polls in `Wait` until its own context ends (`hangB`).  Safe for C09: it returns an error
+    (when its context ends) and its log holds no manifest request. -/
+theorem shared_hang_no_success (strict : Bool) (s : Shared) (h : (sharedPush strict s).hangB = true) :
+    (sharedPush strict s).okB = false ∧ ∀ e ∈ (sharedPush strict s).logB, e.isManifest = false := by
+  simp only [sharedPush, Bool.and_eq_true, Bool.not_eq_true', beq_iff_eq] at h ⊢
+  obtain ⟨⟨hj, hc⟩, ht⟩ := h
+  rw [hj, hc] at ht ⊢
+  simp only [beq_self_eq_true, Bool.and_false] at ht ⊢
+  have hnone : (sharedTransfer strict s false).2 = none := by
+    cases hx : (sharedTransfer strict s false).2 with
+    | none => rfl
+    | some b => rw [hx] at ht; simp at ht
+  simp only [hnone]
+  refine ⟨by simp, ?_⟩
+  intro e he
+  simp at he
+  obtain ⟨q, w, _, rfl⟩ := he
+  rfl
+
+/-- non-vacuity: the owner's session POST fails in transit, B had joined and stays -/
+example : (sharedPush false ⟨[⟨404, false⟩], .transport, false, [], [], [], []⟩).hangB = true := by decide
+
 end OllamaVerif.C09
